@@ -81,8 +81,17 @@ func scenarios(prop, tier string) []*Scenario {
 		// still reported and makes it the heavier one again
 		r = append(r, &Scenario{Name: "genesis/concurrent-submitters", Cfg: hdr.Config{MaxBranchDepth: 144}, N: 1, Subs: 1, Races: []int{0, 1},
 			Slots: []string{"a", "H"}, OnlyTipParents: 2})
+		// two prunes with growth in between on one instance (with the lookups after every operation:
+		// what was read before the second Clean must not be what is answered after it)
+		r = append(r, &Scenario{Name: "genesis/two-prunes-depth-2", Cfg: hdr.Config{MaxBranchDepth: 1}, N: pick(5, 6), M: 2,
+			Maint: []hdr.Op{{K: "cleand", D: 2}}, Slots: []string{"a", "H"}})
+		r = append(r, &Scenario{Name: "genesis/grow-prune-grow-prune-depth-2", Cfg: hdr.Config{MaxBranchDepth: 1}, N: 2, M: 2, Grows: 2, GrowBy: 4,
+			Maint: []hdr.Op{{K: "cleand", D: 2}}, Slots: []string{"a", "H"}, OnlyTipParents: 2})
 		for _, s := range r {
 			s.oracles = []oracle{oracleC01}
+			// the lookup API is called after every operation of the history (a read must not influence
+			// later answers: caches)
+			s.Cfg.ObserveReads = true
 		}
 	case "C07":
 		r = append(r,
@@ -194,6 +203,9 @@ func scenarios(prop, tier string) []*Scenario {
 			Maint: []hdr.Op{{K: "cleand", D: 2}}, Slots: []string{"a", "H"}, OnlyTipParents: 2, MarkOnlyKnown: true})
 		for _, s := range r {
 			s.oracles = []oracle{oracleC10, oracleC01, oracleC08verdict, oracleC09}
+			// the lookup API is called after every operation of the history (a read must not influence
+			// later answers: caches)
+			s.Cfg.ObserveReads = true
 		}
 	case "C11":
 		r = append(r,
@@ -213,6 +225,11 @@ func scenarios(prop, tier string) []*Scenario {
 		// an empty list) and re-offered around a reload
 		r = append(r, &Scenario{Name: "genesis/mark-unmark+reload", Cfg: hdr.Config{MaxBranchDepth: 144}, N: pick(3, 4), Marks: 2, M: pick(1, 2),
 			Maint: []hdr.Op{opReload}, Slots: []string{"a", "H"}})
+		r = append(r, &Scenario{Name: "legacy-prefix-4/migrated-by-this-start", Cfg: hdr.Config{MaxBranchDepth: 144, LegacyPrefix: 4}, N: pick(3, 4), M: 2,
+			Maint: []hdr.Op{opReload, opSave}, Slots: []string{"a", "H"}, Probes: true})
+		// Load called again on a live instance (Save, then Load on the same value; twice)
+		r = append(r, &Scenario{Name: "genesis/load-on-the-same-instance", Cfg: hdr.Config{MaxBranchDepth: 144}, N: pick(5, 6), M: 2,
+			Maint: []hdr.Op{{K: "reload", L: "same-instance"}}, Slots: []string{"a", "H"}})
 		// first start on empty storage and on legacy version-0 header files (Load migrates them), with
 		// a configured invalid hash: the configuration must be in force from the first Load on
 		r = append(r, &Scenario{Name: "genesis/initload+configured-invalid", Cfg: hdr.Config{MaxBranchDepth: 144, InitLoad: true, Invalid: []string{"G/a/a"}}, N: pick(4, 5), M: 2,
@@ -253,6 +270,10 @@ func scenarios(prop, tier string) []*Scenario {
 			&Scenario{Name: "genesis/mark-after-prune-depth-2", Cfg: hdr.Config{MaxBranchDepth: 1}, N: pick(4, 5), Marks: 1, M: 1, Grows: 1, GrowBy: 3,
 				Maint: []hdr.Op{{K: "cleand", D: 2}, {K: "reloadd", D: 2}}, Slots: []string{"a", "H"}},
 		)
+		// the chain was migrated from legacy version-0 header files by this very start (no restart
+		// since): marking, unmarking and resubmitting its headers
+		r = append(r, &Scenario{Name: "legacy-prefix-4/mark-migrated-headers", Cfg: hdr.Config{MaxBranchDepth: 144, LegacyPrefix: 4}, N: pick(2, 3), Marks: 2, M: 1,
+			Maint: []hdr.Op{opReload}, Slots: []string{"a", "H"}})
 		// two marks on doubly nested forks (a branch of a branch next to an unrelated branch): the
 		// order of the branch list matters to the sweep that removes descendants
 		r = append(r, &Scenario{Name: "genesis/two-marks-nested-forks", Cfg: hdr.Config{MaxBranchDepth: 144}, N: 6, Marks: 2, MarkOnlyKnown: true,
@@ -279,8 +300,15 @@ func scenarios(prop, tier string) []*Scenario {
 		// branch keeps in memory
 		r = append(r, &Scenario{Name: "genesis/mark-invalid-then-prune-depth-2", Cfg: hdr.Config{MaxBranchDepth: 1}, N: pick(5, 6), Marks: 1, MarkOnlyKnown: true, M: 1,
 			Maint: []hdr.Op{{K: "cleand", D: 2}}, Slots: []string{"a", "H"}, OnlyTipParents: 2})
+		r = append(r, &Scenario{Name: "genesis/two-prunes-depth-2", Cfg: hdr.Config{MaxBranchDepth: 1}, N: pick(5, 6), M: 2,
+			Maint: []hdr.Op{{K: "cleand", D: 2}}, Slots: []string{"a", "H"}, OnlyTipParents: 2})
+		r = append(r, &Scenario{Name: "genesis/grow-prune-grow-prune-depth-2", Cfg: hdr.Config{MaxBranchDepth: 1}, N: 2, M: 2, Grows: 2, GrowBy: 4,
+			Maint: []hdr.Op{{K: "cleand", D: 2}}, Slots: []string{"a", "H"}, OnlyTipParents: 2})
 		for _, s := range r {
 			s.oracles = []oracle{oracleC18}
+			// the lookup API is called after every operation of the history (a read must not influence
+			// later answers: caches)
+			s.Cfg.ObserveReads = true
 		}
 	case "C19":
 		r = append(r,
